@@ -68,7 +68,7 @@ Ltac fwd1 :=
   first
   [ assumption
   | apply Fwd_fuel
-  | apply Fwd_map | apply Fwd_alt | apply Fwd_opt | apply Fwd_pair
+  | apply Fwd_map | apply Fwd_restore | apply Fwd_alt | apply Fwd_opt | apply Fwd_pair
   | apply Fwd_preceded | apply Fwd_terminated | apply Fwd_many0
   | apply (Fwd_comments toks sync Hc)
   | apply (Fwd_tag toks sync Hc); [tagok]
@@ -298,7 +298,7 @@ Ltac fwd_step Hs :=
   | apply Fwd_assign; [exact Hs] | apply Fwd_stmt; [exact Hs] | apply Fwd_vardecl; [exact Hs]
   | apply Fwd_paramdecl; [exact Hs] | apply Fwd_typedecl_rest; [exact Hs] | apply Fwd_procdecl_rest; [exact Hs]
   | apply Fwd_list; [exact Hs|]
-  | apply Fwd_map | apply Fwd_alt | apply Fwd_opt | apply Fwd_pair
+  | apply Fwd_map | apply Fwd_restore | apply Fwd_alt | apply Fwd_opt | apply Fwd_pair
   | apply Fwd_preceded | apply Fwd_terminated | apply Fwd_many0
   | apply Fwd_comments; [exact (Hc _ Hs)]
   | apply Fwd_tag; [exact (Hc _ Hs) | tagok_with Hs]
